@@ -167,6 +167,15 @@ Definition onepole_step (g a1 : Qc) (m1 : Qc) (el : Qc) : Qc * Qc :=
   let m0 := g * el + - a1 * m1 in (m0, m0).
 Definition lowpass_call (g a1 : Qc) (xs : list Qc) : list Qc := mealy (onepole_step g a1) 0 xs.
 
+(* lowpass(cutoff) with a Stream of cut-off values: the coefficients are Streams, the generated
+   loop is  "for d0 in seq: m0 = next(b0) * d0 + -next(a1) * m1"  and ends when the input or a
+   coefficient stream ends; (g, a1) of sample k are the coefficients of lowpass(cutoff_k) *)
+Fixpoint lowpass_tv (m1 : Qc) (coefs : list (Qc * Qc)) (xs : list Qc) : list Qc :=
+  match coefs, xs with
+  | (g, a1) :: cr, el :: r => let m0 := g * el + - a1 * m1 in m0 :: lowpass_tv m0 cr r
+  | _, _ => []
+  end.
+
 Inductive eout := Plain (q : Qc) | Sqrt (q : Qc).     (* Sqrt q: the symbolic value q ** .5 *)
 Inductive env_strategy := ERms | EAbs | ESquared.
 Definition envelope (s : env_strategy) (g a1 : Qc) (xs : list Qc) : list eout :=
